@@ -17,11 +17,11 @@ Definition str := list N.
 Record vattrs := { va_id : option str; va_hidden : bool; va_class : str; va_on : bool; va_color : str }.
 
 Inductive view :=
-| VText (s : str)
+| VText (kind : nat) (s : str)                     (* 0 String (also &str once erased), 1 i32 *)
 | VUnit
 | VEl (tag : nat) (a : vattrs) (child : view)
-| VTuple (l : list view)
-| VEither (right : bool) (child : view)
+| VTuple (arr : bool) (l : list view)              (* tuple, or array [T; N] *)
+| VEither (arity : nat) (branch : nat) (child : view)   (* Either (2) / EitherOf3 (3) *)
 | VOpt (o : option view)
 | VVec (l : list view)
 | VStatic (l : list view).
@@ -32,35 +32,37 @@ Record dattrs := { da_id : option str; da_hidden : bool; da_class : option (list
 
 (** [Render::State] of each view; node ids are handles to DOM nodes *)
 Inductive st :=
-| SText (id : N) (s : str)                         (* StringState *)
+| SText (id : N) (kind : nat) (s : str)            (* StringState / StrState / I32State *)
 | SUnit (id : N)                                   (* Placeholder of [()] *)
 | SEl (id : N) (tag : nat) (prev : vattrs) (dom_attrs : dattrs) (kids : list N) (child : st)
                                                    (* ElementState + the element's own children *)
-| STuple (l : list st)
-| SEither (right : bool) (child : st)
+| STuple (arr : bool) (l : list st)                (* tuple states / ArrayState *)
+| SEither (arity : nat) (branch : nat) (child : st)
 | SOptSome (child : st)                            (* OptionState = Either<T::State, Placeholder> *)
 | SOptNone (ph : N)
 | SVec (l : list st) (marker : N)                  (* VecState *)
 | SStatic (l : list st) (mounted : bool).          (* StaticVecState; [mounted] = parent.is_some() *)
 
 (** [TypeId] of the erased view: its outermost constructor *)
-Inductive tcode := TText | TUnit | TEl (tag : nat) | TTuple (n : nat) | TEither | TOpt | TVec | TStatic.
+Inductive tcode := TText (kind : nat) | TUnit | TEl (tag : nat) | TTuple (arr : bool) (n : nat) | TEither (arity : nat) | TOpt | TVec | TStatic.
 
 Definition tc_view (v : view) : tcode :=
   match v with
-  | VText _ => TText | VUnit => TUnit | VEl tag _ _ => TEl tag | VTuple l => TTuple (length l)
-  | VEither _ _ => TEither | VOpt _ => TOpt | VVec _ => TVec | VStatic _ => TStatic
+  | VText k _ => TText k | VUnit => TUnit | VEl tag _ _ => TEl tag | VTuple arr l => TTuple arr (length l)
+  | VEither ar _ _ => TEither ar | VOpt _ => TOpt | VVec _ => TVec | VStatic _ => TStatic
   end.
 Definition tc_st (s : st) : tcode :=
   match s with
-  | SText _ _ => TText | SUnit _ => TUnit | SEl _ tag _ _ _ _ => TEl tag | STuple l => TTuple (length l)
-  | SEither _ _ => TEither | SOptSome _ | SOptNone _ => TOpt | SVec _ _ => TVec | SStatic _ _ => TStatic
+  | SText _ k _ => TText k | SUnit _ => TUnit | SEl _ tag _ _ _ _ => TEl tag | STuple arr l => TTuple arr (length l)
+  | SEither ar _ _ => TEither ar | SOptSome _ | SOptNone _ => TOpt | SVec _ _ => TVec | SStatic _ _ => TStatic
   end.
 Definition tcode_eqb (a b : tcode) : bool :=
   match a, b with
-  | TText, TText | TUnit, TUnit | TEither, TEither | TOpt, TOpt | TVec, TVec | TStatic, TStatic => true
+  | TUnit, TUnit | TOpt, TOpt | TVec, TVec | TStatic, TStatic => true
+  | TText x, TText y => Nat.eqb x y
+  | TEither x, TEither y => Nat.eqb x y
   | TEl x, TEl y => Nat.eqb x y
-  | TTuple x, TTuple y => Nat.eqb x y
+  | TTuple a x, TTuple b y => Bool.eqb a b && Nat.eqb x y
   | _, _ => false
   end.
 
@@ -125,9 +127,9 @@ Definition rebuild_attrs (a prev : vattrs) (d : dattrs) : dattrs :=
 (** the top-level nodes a state owns, in mount order *)
 Fixpoint ids (s : st) : list N :=
   match s with
-  | SText id _ | SUnit id | SEl id _ _ _ _ _ => [id]
-  | STuple l => flat_map ids l
-  | SEither _ c | SOptSome c => ids c
+  | SText id _ _ | SUnit id | SEl id _ _ _ _ _ => [id]
+  | STuple _ l => flat_map ids l
+  | SEither _ _ c | SOptSome c => ids c
   | SOptNone ph => [ph]
   | SVec l mk => flat_map ids l ++ [mk]
   | SStatic l _ => flat_map ids l
@@ -136,8 +138,8 @@ Fixpoint ids (s : st) : list N :=
 (** [mount] reaches every member state; a StaticVec remembers that it has a parent *)
 Fixpoint mark_mounted (s : st) : st :=
   match s with
-  | STuple l => STuple (map mark_mounted l)
-  | SEither r c => SEither r (mark_mounted c)
+  | STuple a l => STuple a (map mark_mounted l)
+  | SEither ar r c => SEither ar r (mark_mounted c)
   | SOptSome c => SOptSome (mark_mounted c)
   | SVec l mk => SVec (map mark_mounted l) mk
   | SStatic l _ => SStatic (map mark_mounted l) true
@@ -156,10 +158,10 @@ Definition unmount_st (s : st) (dom : list N) : list N :=
 (** [state.insert_before_this(child)]: the node (in order) that has a parent, if any *)
 Fixpoint anchor_of (s : st) (dom : list N) : option N :=
   match s with
-  | SText id _ | SUnit id | SEl id _ _ _ _ _ => if memN id dom then Some id else None
-  | STuple l => (fix first l := match l with [] => None | x :: r =>
+  | SText id _ _ | SUnit id | SEl id _ _ _ _ _ => if memN id dom then Some id else None
+  | STuple _ l => (fix first l := match l with [] => None | x :: r =>
                    match anchor_of x dom with Some a => Some a | None => first r end end) l
-  | SEither _ c | SOptSome c => anchor_of c dom
+  | SEither _ _ c | SOptSome c => anchor_of c dom
   | SOptNone ph => if memN ph dom then Some ph else None
   | SVec l mk => match (fix first l := match l with [] => None | x :: r =>
                           match anchor_of x dom with Some a => Some a | None => first r end end) l with
@@ -182,21 +184,21 @@ Definition insert_before_this (s child : st) (dom : list N) : bool * st * list N
 
 Fixpoint build (v : view) (nx : N) : st * N :=
   match v with
-  | VText s => (SText nx s, (nx + 1)%N)
+  | VText k s => (SText nx k s, (nx + 1)%N)
   | VUnit => (SUnit nx, (nx + 1)%N)
   | VEl tag a c =>
       (* create_element; attributes.build; children.build(); children.mount(&el, None) *)
       let '(cs, nx1) := build c (nx + 1)%N in
       let '(cs', kids) := mount_st cs None [] in
       (SEl nx tag a (build_attrs a) kids cs', nx1)
-  | VTuple l =>
+  | VTuple arr l =>
       let '(ss, nx1) := (fix go l nx := match l with
                            | [] => ([], nx)
                            | x :: r => let '(s, n1) := build x nx in
                                        let '(ss, n2) := go r n1 in (s :: ss, n2)
                            end) l nx in
-      (STuple ss, nx1)
-  | VEither r c => let '(s, nx1) := build c nx in (SEither r s, nx1)
+      (STuple arr ss, nx1)
+  | VEither ar r c => let '(s, nx1) := build c nx in (SEither ar r s, nx1)
   | VOpt (Some c) => let '(s, nx1) := build c nx in (SOptSome s, nx1)
   | VOpt None => (SOptNone nx, (nx + 1)%N)
   | VVec l =>
@@ -240,23 +242,23 @@ Definition mount_before (s : st) (marker : N) (w : rw) : st * rw :=
 Fixpoint rebuild_any (v : view) (s : st) (w : rw) {struct v} : st * rw :=
   if negb (tcode_eqb (tc_view v) (tc_st s)) then replace_with v s w else
   match v, s with
-  | VText t, SText id _ => (SText id t, w)            (* set_text if different *)
+  | VText k t, SText id _ _ => (SText id k t, w)       (* set_text if different *)
   | VUnit, SUnit id => (SUnit id, w)
   | VEl tag a c, SEl id _ prev d kids cs =>
       (* attributes.rebuild; children.rebuild — inside the element *)
       let '(cs', wk) := rebuild_any c cs {| r_dom := kids; r_next := r_next w; r_panic := r_panic w |} in
       (SEl id tag a (rebuild_attrs a prev d) (r_dom wk) cs',
        {| r_dom := r_dom w; r_next := r_next wk; r_panic := r_panic wk |})
-  | VTuple l, STuple ss =>
+  | VTuple arr l, STuple _ ss =>
       let '(ss', w') := (fix go l ss w := match l, ss with
                            | x :: r, s :: sr => let '(s', w1) := rebuild_any x s w in
                                                 let '(rest, w2) := go r sr w1 in (s' :: rest, w2)
                            | _, _ => ([], w)
                            end) l ss w in
-      (STuple ss', w')
-  | VEither r c, SEither r0 cs =>
-      if Bool.eqb r r0 then let '(cs', w') := rebuild_any c cs w in (SEither r cs', w')
-      else let '(ns, w') := replace_with c cs w in (SEither r ns, w')
+      (STuple arr ss', w')
+  | VEither ar r c, SEither _ r0 cs =>
+      if Nat.eqb r r0 then let '(cs', w') := rebuild_any c cs w in (SEither ar r cs', w')
+      else let '(ns, w') := replace_with c cs w in (SEither ar r ns, w')
   | VOpt (Some c), SOptSome cs => let '(cs', w') := rebuild_any c cs w in (SOptSome cs', w')
   | VOpt None, SOptSome cs =>
       (* new placeholder; old.insert_before_this(new); old.unmount() *)
